@@ -60,19 +60,36 @@ package loader
 //@ ghost func templatesSound(c *chart.Chart) bool = forall q int :: 0 <= q && q < len(c.Templates) ==> c.Templates[q] != nil && strings.HasPrefix(c.Templates[q].Name, "templates/")
 //@ ghost func subchartFilesOK(m gomap[string][]*BufferedFile) bool = m != nil && (forall n string, q int :: has(m, n) && 0 <= q && q < len(m[n]) ==> m[n][q] != nil)
 
+// (the `marks` clause is a free postcondition — assumed at the recursive call, not checked: loading
+// writes no string list that existed before the call; every list it fills comes from the YAML decoder)
 //@ func LoadFiles
-//@   props C15
+//@   props C15 C05
 //@   requires filesNonNil(files)
 //@   ensures [raw-keeps-every-file-byte-for-byte] result1 == nil ==> result0 != nil && len(result0.Raw) == len(files) && (forall j int :: 0 <= j && j < len(files) ==> result0.Raw[j] != nil && result0.Raw[j].Name == old(files[j].Name) && result0.Raw[j].Data == old(files[j].Data))
 //@   ensures [templates-are-files-under-templates] result1 == nil ==> templatesSound(result0)
+//@   marks forall l []string, i int :: !fresh(l) ==> l[i] == old(l[i])
 //@   loop 1 invariant [raw] c != nil && fresh(c) && len(c.Raw) == #iter && (forall j int :: 0 <= j && j < #iter ==> c.Raw[j] != nil && c.Raw[j].Name == old(files[j].Name) && c.Raw[j].Data == old(files[j].Data)) && len(c.Templates) == 0
 //@   loop 1 invariant [inputs] filesNonNil(files) && (forall j int :: #iter <= j && j < len(files) ==> files[j].Name == old(files[j].Name) && files[j].Data == old(files[j].Data))
 //@   loop 2 invariant [raw] c != nil && fresh(c) && len(c.Raw) == len(files) && (forall j int :: 0 <= j && j < len(files) ==> c.Raw[j] != nil && c.Raw[j].Name == old(files[j].Name) && c.Raw[j].Data == old(files[j].Data)) && templatesSound(c)
 //@   loop 2 invariant [inputs] filesNonNil(files) && subchartFilesOK(subcharts)
+//@   loop 4 invariant [subcharts-added-in-name-order] [C05] forall a, b int :: 0 <= a && a < b && b < len(#range) ==> #range[a] <= #range[b]
+//@   loop 3 invariant [names-in-a-list-of-their-own] len(names) == 0 || fresh(names)
 //@   loop 3 invariant [c] c != nil && fresh(c)
+//@   loop 4 invariant [c] c != nil && fresh(c)
 //@   loop 3 invariant [rawlen] len(c.Raw) == len(files)
+//@   loop 4 invariant [rawlen] len(c.Raw) == len(files)
 //@   loop 3 invariant [raw] forall j int :: 0 <= j && j < len(files) ==> c.Raw[j] != nil && c.Raw[j].Name == old(files[j].Name) && c.Raw[j].Data == old(files[j].Data)
+//@   loop 4 invariant [raw] forall j int :: 0 <= j && j < len(files) ==> c.Raw[j] != nil && c.Raw[j].Name == old(files[j].Name) && c.Raw[j].Data == old(files[j].Data)
 //@   loop 3 invariant [tpl] templatesSound(c)
+//@   loop 4 invariant [tpl] templatesSound(c)
 //@   loop 3 invariant [inputs] subchartFilesOK(subcharts)
-//@   loop 4 invariant [raw] c != nil && fresh(c) && len(c.Raw) == len(files) && (forall j int :: 0 <= j && j < len(files) ==> c.Raw[j] != nil && c.Raw[j].Name == old(files[j].Name) && c.Raw[j].Data == old(files[j].Data)) && templatesSound(c)
-//@   loop 4 invariant [inputs] subchartFilesOK(subcharts) && filesNonNil(buff) && filesNonNil(#range)
+//@   loop 4 invariant [inputs] subchartFilesOK(subcharts)
+//@   loop 5 invariant [raw] c != nil && fresh(c) && len(c.Raw) == len(files) && (forall j int :: 0 <= j && j < len(files) ==> c.Raw[j] != nil && c.Raw[j].Name == old(files[j].Name) && c.Raw[j].Data == old(files[j].Data)) && templatesSound(c)
+//@   loop 5 invariant [inputs] subchartFilesOK(subcharts) && filesNonNil(buff) && filesNonNil(#range)
+
+// LoadArchive (archive reading, then LoadFiles): only the frame its caller LoadFiles needs — a free
+// postcondition, assumed and not checked: it writes no string list that existed before the call.
+//@ func LoadArchive
+//@   props C05
+//@   trusted
+//@   marks forall l []string, i int :: !fresh(l) ==> l[i] == old(l[i])
